@@ -75,7 +75,7 @@ class parse_error(Contract):
 
     def frame(self, c):
         return Frame(fields=[(TOK, 'kind'), ('struct _cffi_parse_info_s', 'error_location'),
-                             ('struct _cffi_parse_info_s', 'error_message')])
+                             ('struct _cffi_parse_info_s', 'error_message')], trace=[])
 
     def post(self, c):
         return [('-1 and the tokenizer is in the error state', z3.And(c.result == BV(-1, 32),
@@ -98,7 +98,7 @@ class write_ds(Contract):
         idx = T(c, c.old, tok, 'output_index')
         return Frame(raw=[(out + idx * 8, 8)], fields=[(TOK, 'kind'), (TOK, 'output_index'),
                                                        ('struct _cffi_parse_info_s', 'error_location'),
-                                                       ('struct _cffi_parse_info_s', 'error_message')])
+                                                       ('struct _cffi_parse_info_s', 'error_message')], trace=[])
 
     def post(self, c):
         tok = c['tok']
@@ -121,7 +121,7 @@ class next_token(Contract):
     trusted = True
 
     def frame(self, c):
-        return Frame(fields=[(TOK, 'kind'), (TOK, 'p'), (TOK, 'size')])
+        return Frame(fields=[(TOK, 'kind'), (TOK, 'p'), (TOK, 'size')], trace=[])
 
 
 class search_in_globals_weak(Contract):
@@ -196,7 +196,7 @@ class conv_to_rec(Contract):
     record_calls = True
 
     def frame(self, c):
-        return Frame(err=True)
+        return Frame(err=True, trace=[])
 
 
 class conv_from_rec(Contract):
@@ -206,7 +206,7 @@ class conv_from_rec(Contract):
     record_calls = True
 
     def frame(self, c):
-        return Frame(all_raw=True, err=True)
+        return Frame(all_raw=True, err=True, trace=[])
 
 
 R.add(conv_to_rec)
@@ -233,7 +233,7 @@ class fetch_global_var_addr(Contract):
                 ('module initialised: ffi.error exists', c.global_value(c.old, 'FFIError') != 0)]
 
     def frame(self, c):
-        return Frame(all_raw=True, all_fields=True, err=True, ghost=['cffi_saved_errno'])
+        return Frame(all_raw=True, all_fields=True, err=True, ghost=['cffi_saved_errno'], trace=['tmp:fetch:calls', 'tmp:fetch:address'])
 
     def post(self, c):
         st0, st1 = c.old, c.new
@@ -306,7 +306,7 @@ class realize_c_type(Contract):
     trusted = True
 
     def frame(self, c):
-        return Frame(err=True, all_raw=True)
+        return Frame(err=True, all_raw=True, trace=[])
 
     def post(self, c):
         return [('a valid ctype, or NULL with an exception',
